@@ -1,0 +1,32 @@
+//go:build verif
+
+// Contracts for package edge, read by /verif/engine (govc). Comments only.
+package edge
+
+// Message getters: assumed (trusted) to be side-effect-free functions of the message, for every
+// implementation of the interfaces.
+//@ func (NameGetter).Name
+//@   trusted
+//@   pure
+//@ func (GroupIDGetter).GroupID
+//@   trusted
+//@   pure
+//@ func (TagGetter).Tags
+//@   trusted
+//@   pure
+//@ func (TimeGetter).Time
+//@   trusted
+//@   pure
+//@ func (FieldGetter).Fields
+//@   trusted
+//@   pure
+//@ func (DimensionGetter).Dimensions
+//@   trusted
+//@   pure
+//@ func (PointMessage).ToResult
+//@   trusted
+//@   modifies nothing
+//@ func (PointMessage).ShallowCopy
+//@   trusted
+//@   modifies nothing
+//@   ensures result != nil
